@@ -45,9 +45,9 @@ def unclassify (old : Option Bytes) (new : Bytes) (s : String) : Option Bytes :=
   else if s.startsWith "pre" then (match (s.drop 3).toString.toNat? with | some j => some (new.take j) | none => some [255])
   else some [255]
 
-def handle (op : String) (args : List String) (impl : String) : Option Verdict :=
-  match op, args with
-  | "store", [kind, mode, k, oldS, _newS] => some <| Id.run do
+/-- `store` (ro = false) and `storero` (ro = true: the process may not create files in the directory, so
+    `os.CreateTemp` fails with EACCES before anything is written — fault `fail 0`, whatever the write fault would be) -/
+def handleStore (ro : Bool) (kind mode k oldS : String) (impl : String) : Verdict := Id.run do
     let some k := k.toNat? | return bad
     let fsI := impl.splitOn ";"
     -- the lengths of the two encodings are library output (JSON); the model takes them from the run
@@ -65,6 +65,7 @@ def handle (op : String) (args : List String) (impl : String) : Option Verdict :
       else if mode = "die" then some (if k < b then .die 1 k else .none)
       else none
     let some fault := fault | return bad
+    let fault := if ro then Fault.fail 0 0 [] else fault
     let fs1 := exec prog fault fs0
     let st := status prog fault
     let file := classify old newB (fs1 pPath)
@@ -75,8 +76,96 @@ def handle (op : String) (args : List String) (impl : String) : Option Verdict :
       | some ist, some ifile, some iget =>
         decide (P18 old newB ist (unclassify old newB ifile)) && decide (P18 old newB ist (unclassify old newB iget))
       | _, _, _ => false
-    let tag := s!"store:{kind}:{mode}:{showStatus st}:{(file.take 3).toString}:old={oldS != "-"}:same={c}"
+    let big := if b ≥ 1048576 then "1M" else if b ≥ 65536 then "64k" else if b ≥ 4096 then "4k" else "small"
+    let tag := s!"{if ro then "storero" else "store"}:{kind}:{mode}:{showStatus st}:{(file.take 3).toString}:old={oldS != "-"}:same={c}:{big}"
     return ⟨m, ok, tag⟩
+
+/-- content of the value of class `c` with encoding length `len` (distinct classes get distinct bytes) -/
+def synth (c len : Nat) : Bytes := List.replicate len (UInt8.ofNat (c + 1))
+
+structure SeqStep where
+  cls : Nat
+  len : Nat
+  st : String
+  file : String
+  get : String
+  left : Nat
+
+def parseSeqStep (s : String) : Option SeqStep :=
+  match s.splitOn "," with
+  | [c, l, st, f, g, lf] => do pure ⟨← c.toNat?, ← l.toNat?, st, f, g, ← lf.toNat?⟩
+  | _ => none
+
+/-- name a content relative to the values seen so far (first matching class) -/
+def classifySeq (seen : List (Nat × Nat)) : Option Bytes → String
+  | none => "absent"
+  | some c => match seen.find? (fun v => synth v.1 v.2 == c) with
+    | some v => s!"v{v.1}"
+    | none => s!"x{c.length}"
+
+/-- a witness content for what the implementation reported -/
+def unclassifySeq (seen : List (Nat × Nat)) (s : String) : Option Bytes :=
+  if s = "absent" || s = "err" then none
+  else if s.startsWith "v" then
+    match (s.drop 1).toString.toNat? with
+    | some c => (match seen.find? (·.1 == c) with | some v => some (synth v.1 v.2) | none => some [255])
+    | none => some [255]
+  else some [255]
+
+def handleSeq (kind steps : String) (impl : String) : Verdict := Id.run do
+  let specs := (items steps ";").map (·.splitOn ":")
+  let some outs := (items impl "/").mapM parseSeqStep | return ⟨"UNPARSABLE", false, "seq:unparsable"⟩
+  if outs.length != specs.length then return ⟨"UNPARSABLE", false, "seq:unparsable"⟩
+  let mut fs : FS := fun _ => none
+  let mut seen : List (Nat × Nat) := []
+  let mut tmps : List Path := []
+  let mut ms : List String := []
+  let mut ok := true
+  let mut prevObs : Option Bytes := none       -- what the IMPLEMENTATION had at the path before this step
+  let mut prevGet : Option Bytes := none
+  let mut j := 0
+  let mut dies := 0
+  let mut shorter := false
+  for (spec, o) in specs.zip outs do
+    let (mode, k) := match spec with
+      | [m, k, _] => (m, k.toNat?.getD 0)
+      | _ => ("bad", 0)
+    let newB := synth o.cls o.len
+    seen := seen ++ [(o.cls, o.len)]
+    let t : Path := s!"tmp{j}"
+    tmps := tmps ++ [t]
+    let fault : Fault :=
+      if mode = "fail" && k < o.len then .fail 1 k []
+      else if mode = "die" && k < o.len then .die 1 k
+      else .none
+    if mode = "bad" then return bad
+    let prog := storeAtomic pPath t newB
+    let before := fs pPath
+    fs := exec prog fault fs
+    let st := status prog fault
+    if st == .died then dies := dies + 1
+    if dies > 0 && (match before with | some c => o.len < c.length | none => false) then shorter := true
+    let file := classifySeq seen (fs pPath)
+    let left := (tmps.filter fun t => (fs t).isSome).length
+    let get := if file.startsWith "v" then file else "err"
+    ms := ms ++ [s!"{o.cls},{o.len},{showStatus st},{file},{get},{left}"]
+    -- the property, step by step, on the implementation's own observations
+    let obs := unclassifySeq seen o.file
+    let gobs := unclassifySeq seen o.get
+    match parseStatus o.st with
+    | some ist =>
+      ok := ok && decide (P18 prevObs newB ist obs) && decide (P18 prevGet newB ist gobs)
+    | none => ok := false
+    prevObs := obs
+    prevGet := gobs
+    j := j + 1
+  return ⟨joinOr ms "/", ok, s!"seq:{kind}:n={min specs.length 5}:dies={min dies 2}:shorter-after-die={shorter}"⟩
+
+def handle (op : String) (args : List String) (impl : String) : Option Verdict :=
+  match op, args with
+  | "store", [kind, mode, k, oldS, _newS] => some (handleStore false kind mode k oldS impl)
+  | "storero", [kind, mode, k, oldS, _newS] => some (handleStore true kind mode k oldS impl)
+  | "seq", [kind, steps] => some (handleSeq kind steps impl)
   | _, _ => none
 
 end Sygma.Drv.C18
